@@ -128,3 +128,20 @@ Proof.
   intros skew off h langs H. rewrite (adjust_objs_value skew off h langs (refs_ok_spec h langs H)).
   apply adjust_ok.
 Qed.
+
+(* wave 7: the heap after adjust_caption_timing.  Whatever the alias structure (one Caption object listed under several
+   languages, or several times in one list), every listed OBJECT holds its initial times retimed exactly once, and
+   every language's new list (set_captions) holds, in order, the references whose retimed start is not negative. *)
+Theorem adjust_objs_heap : forall skew off h0 langs,
+  (forall ids k, In ids langs -> In k ids -> (k < length h0)%nat) ->
+  exists h' adj',
+    adjust_obj_langs true skew off (h0, []) langs = ((h', adj'), map (filter (keep skew off h0)) langs) /\
+    length h' = length h0 /\
+    forall ids k, In ids langs -> In k ids -> deref h' k = retime skew off (deref h0 k).
+Proof.
+  intros skew off h0 langs Hr.
+  assert (Hinv0 : inv skew off h0 h0 []) by (split; [reflexivity|intros j; reflexivity]).
+  destruct (langs_spec skew off h0 langs h0 [] Hinv0 Hr) as [h' [adj' [E [[Hl Hd] [M _]]]]].
+  exists h', adj'. split; [exact E|]. split; [exact Hl|].
+  intros ids k Hi Hk. rewrite Hd, (M ids k Hi Hk). reflexivity.
+Qed.
